@@ -140,25 +140,88 @@ class Wrapped(InstructionGenerator):
 
 
 def gen_queue_world(rng: random.Random, n_steps: int) -> Dict[str, Any]:
-    """one station with ONE slow plug and 4-6 vehicles at or next to it, several (nearly) full: long queues,
-    arrivals in different steps, ids assigned against the arrival order"""
+    """one station with ONE slow plug and 4-6 vehicles at or next to it, several (nearly) full, some nearly flat: long
+    queues, arrivals in different steps, ids assigned against the arrival order, vehicles running flat while waiting"""
     dt = 60
     c0 = world.at(0, 0)
     near = [world.at(300, 0), world.at(0, 500), world.at(-700, 200)]
-    plug = rng.choice(["LEVEL_1", "LEVEL_2"])
-    stations = [{"id": "s1", "lat": c0[0], "lon": c0[1], "plugs": [(plug, 1, True)] + ([("DCFC", 1, True)] if rng.random() < 0.3 else [])}]
+    close = [world.at(40, 0), world.at(0, -60), world.at(-30, 30)]       # a few metres of driving
+    plug = rng.choice(["LEVEL_1", "LEVEL_1", "LEVEL_2"])
+    stations = [{"id": "s1", "lat": c0[0], "lon": c0[1], "plugs": [(plug, 1, True)] + ([("DCFC", 1, True)] if rng.random() < 0.25 else [])}]
     bases = [{"id": "b1", "lat": near[0][0], "lon": near[0][1], "station": None, "stalls": 2}]
     n_v = rng.randint(4, 6)
     ids = [f"v{k+1}" for k in range(n_v)]
     rng.shuffle(ids)
     vehicles = []
     for k, vid in enumerate(ids):
-        c = c0 if k < 2 or rng.random() < 0.4 else rng.choice(near)
-        # some vehicles barely make it to the station and run flat while waiting in the queue
-        soc = rng.choice([0.3, 0.6, 0.9, 0.999, 1.0, 1.0, rng.uniform(0.0004, 0.0025), rng.uniform(0.0004, 0.0025)])
+        flat = rng.random() < 0.35
+        if flat:
+            # barely makes it to the station and runs flat while waiting in the queue
+            c = rng.choice(close)
+            soc = rng.uniform(0.0003, 0.0012)
+        else:
+            c = c0 if k < 1 or rng.random() < 0.3 else rng.choice(near + close)
+            soc = rng.choice([0.3, 0.6, 0.9, 0.999, 1.0])
         vehicles.append({"id": vid, "lat": c[0], "lon": c[1], "mech": "leaf_50", "soc": soc})
     return {"name": "queue", "dt": dt, "start": 0, "end": dt * n_steps, "cancel": 600, "vehicles": vehicles, "requests": [],
             "stations": stations, "bases": bases, "focus": "queue"}
+
+
+def gen_fleet_world(rng: random.Random, n_steps: int) -> Dict[str, Any]:
+    """two fleets; vehicles in none / one / both; stations, bases (each with its own station) and requests in none / one
+    fleet, all within two cells so that every kind of interaction is attempted often"""
+    dt = 60
+    cells = [world.at(0, 0), world.at(450, 0)]
+    fl = {"fa": {"vehicles": [], "stations": [], "bases": []}, "fb": {"vehicles": [], "stations": [], "bases": []}}
+
+    def member(kind, ident, opts):
+        for f in rng.choice(opts):
+            fl[f][kind].append(ident)
+
+    stations, bases, vehicles, requests = [], [], [], []
+    for k in range(2):
+        c = cells[k]
+        stations.append({"id": f"s{k+1}", "lat": c[0], "lon": c[1], "plugs": [("DCFC", 2, True), ("LEVEL_2", 2, True)]})
+        member("stations", f"s{k+1}", [[], ["fa"], ["fb"], ["fa", "fb"]])
+        stations.append({"id": f"bs{k+1}", "lat": c[0], "lon": c[1], "plugs": [("LEVEL_2", 2, False)]})
+        member("stations", f"bs{k+1}", [[], [], ["fa"], ["fb"]])
+        bases.append({"id": f"b{k+1}", "lat": c[0], "lon": c[1], "station": f"bs{k+1}", "stalls": 3})
+        member("bases", f"b{k+1}", [[], ["fa"], ["fb"], ["fa"], ["fb"]])
+    for k in range(rng.randint(4, 6)):
+        c = cells[rng.randrange(2)]
+        vehicles.append({"id": f"v{k+1}", "lat": c[0], "lon": c[1], "mech": "leaf_50", "soc": rng.choice([0.3, 0.6, 0.8])})
+        member("vehicles", f"v{k+1}", [[], ["fa"], ["fb"], ["fa", "fb"]])
+    for k in range(rng.randint(6, 14)):
+        o, d = cells[rng.randrange(2)], cells[rng.randrange(2)]
+        requests.append({"id": f"r{k+1:02d}", "o": o, "d": d, "dep": rng.randrange(0, dt * n_steps * 3 // 4), "pax": 1,
+                         "fleet": rng.choice(["fa", "fb"])})
+    requests.sort(key=lambda r: (r["dep"], r["id"]))
+    return {"name": "fleet", "dt": dt, "start": 0, "end": dt * n_steps, "cancel": 600, "vehicles": vehicles, "requests": requests,
+            "stations": stations, "bases": bases, "fleets": fl, "focus": "fleet"}
+
+
+def gen_dispatch_world(rng: random.Random, n_steps: int) -> Dict[str, Any]:
+    """only the built-in generators: several vehicles around bursts of requests, some requests already waiting in the
+    initial state at the start time (as a co-simulation user adds them), start time 0"""
+    dt = rng.choice([30, 60, 60])
+    pts = [world.at(rng.uniform(-800, 800), rng.uniform(-800, 800)) for _ in range(5)]
+    vehicles = [{"id": f"v{k+1}", "lat": pts[k % 5][0], "lon": pts[k % 5][1], "mech": "leaf_50", "soc": rng.choice([0.5, 0.8, 0.08])}
+                for k in range(rng.randint(3, 7))]
+    stations = [{"id": "s1", "lat": pts[0][0], "lon": pts[0][1], "plugs": [("DCFC", 2, True)]}]
+    bases = [{"id": "b1", "lat": pts[1][0], "lon": pts[1][1], "station": None, "stalls": 10}]
+    requests, preload = [], []
+    for k in range(rng.randint(4, 14)):
+        o, d = pts[rng.randrange(5)], pts[rng.randrange(5)]
+        r = {"id": f"r{k+1:02d}", "o": o, "d": d, "dep": rng.randrange(0, dt * n_steps // 2), "pax": 1, "fleet": None}
+        if rng.random() < 0.3:
+            r["dep"] = 0
+            preload.append(r)
+        else:
+            requests.append(r)
+    requests.sort(key=lambda r: (r["dep"], r["id"]))
+    return {"name": "dispatch", "dt": dt, "start": 0, "end": dt * n_steps, "cancel": rng.choice([300, 600]), "vehicles": vehicles,
+            "requests": requests, "preload": preload, "stations": stations, "bases": bases, "focus": "dispatch",
+            "rate": (2.0, 1.0, 3.0)}
 
 
 def gen_energy_world(rng: random.Random, n_steps: int, dt: Optional[int] = None) -> Dict[str, Any]:
@@ -301,6 +364,10 @@ def gen_world(rng: random.Random, *, n_steps: int = 40, fleets: Optional[bool] =
         return gen_shift_world(rng, n_steps, dt)
     if focus == "inputs":
         return gen_input_world(rng, n_steps, dt)
+    if focus == "fleet":
+        return gen_fleet_world(rng, n_steps)
+    if focus == "dispatch":
+        return gen_dispatch_world(rng, n_steps)
     dt = dt or rng.choice([30, 60, 60, 120])
     ncell = rng.randint(3, 5)
     # cells 300..1500 m apart (one to three steps at 40 km/h and dt = 60)
